@@ -30,7 +30,15 @@ import (
 var serverBin string
 
 func TestMain(m *testing.M) {
-	// the server under test: cmd/anndb of the current working tree, with the verif tag (logical-time pumps)
+	// the server under test: cmd/anndb of the current working tree, with the verif tag (logical-time pumps);
+	// the driver builds it together with this test binary, a direct `go test` run builds it here
+	if b := os.Getenv("VERIF_SERVER_BIN"); b != "" {
+		if _, err := os.Stat(b); err == nil {
+			serverBin = b
+			pbt.Main(m)
+			return
+		}
+	}
 	dir, err := os.MkdirTemp(scratchRoot(), "c12bin")
 	if err != nil {
 		panic(err)
